@@ -407,6 +407,54 @@ Fixpoint fresh_run (ftol : T) (cs : list nmcall) : list (res nmout) :=
       end
   end.
 
+(** ** 3.3b requests whose arguments ARE public members of Minimization objects
+    All three overloads take their vector arguments by non-const reference, and y, current_simplex are public: a caller can pass
+    [m.current_simplex] itself (restart from the reported simplex), a row of it (restart from the reported point), [m.y], members of
+    another object, or one vector for both the starting point and the displacements.
+    minimize(pp, func) with pp aliasing the object's current_simplex: [current_simplex = pp] is a self-assignment (nothing changes),
+    [y.resize(mpts)] keeps the size, and pp is not read again; the two convenience overloads read starting_point and deltas into a
+    local table before the general interface writes any member.  So a by-reference argument contributes the value its referent
+    has when the call starts. *)
+Inductive vsrc :=
+| VGiven (l : list T)                 (* a vector of the caller *)
+| VRow (k i : nat)                    (* objs[k].current_simplex[i] *)
+| VY (k : nat).                       (* objs[k].y *)
+Inductive dsrc :=
+| DVec (v : vsrc)
+| DStart.                             (* the very vector passed as the starting point *)
+Inductive nmreq :=
+| ReqG (f : list T -> T) (pp : list (list T))
+| ReqGS (f : list T -> T) (k : nat)   (* minimize(objs[k].current_simplex, f) *)
+| ReqD (f : list T -> T) (st : vsrc) (ds : dsrc)
+| Req1 (f : list T -> T) (st : vsrc) (delta : T).
+
+Definition obj_fresh : nmobj := mkObj 0 0 0 zero [] [].
+Definition obj_at (objs : list nmobj) (k : nat) : nmobj := nth k objs obj_fresh.
+Definition vsrc_val (objs : list nmobj) (s : vsrc) : list T :=
+  match s with
+  | VGiven l => l
+  | VRow k i => nth i (ob_simplex (obj_at objs k)) []
+  | VY k => ob_y (obj_at objs k)
+  end.
+Definition req_call (objs : list nmobj) (r : nmreq) : nmcall :=
+  match r with
+  | ReqG f pp => CallG f pp
+  | ReqGS f k => CallG f (ob_simplex (obj_at objs k))
+  | ReqD f st ds => CallD f (vsrc_val objs st) (match ds with DVec v => vsrc_val objs v | DStart => vsrc_val objs st end)
+  | Req1 f st d => Call1 f (vsrc_val objs st) d
+  end.
+
+Fixpoint set_obj (objs : list nmobj) (k : nat) (ob : nmobj) : list nmobj :=
+  match objs, k with
+  | [], _ => []
+  | _ :: rest, O => ob :: rest
+  | o :: rest, S k' => o :: set_obj rest k' ob
+  end.
+
+(** one request on object number [ob] of a collection of objects (each with its own ftol) *)
+Definition objs_call (objs : list nmobj) (ftols : list T) (ob : nat) (r : nmreq) : res (list nmobj * nmout) :=
+  rmap (fun p => (set_obj objs ob (fst p), snd p)) (obj_call (obj_at objs ob) (nth ob ftols zero) (req_call objs r)).
+
 (** ** 3.4 profiled objectives: the objective of an outer minimisation runs a minimisation itself (re-entrancy)
     F(x) = min_z g(x ++ z), computed by Nelder-Mead on an object [ob] (a fresh or a reused one) or by Find_Minimum *)
 Definition profile_nm1 (g : list T -> T) (ob : nmobj) (ftol_in : T) (z0 : list T) (din : T) (x : list T) : res (nmobj * T) :=
